@@ -37,21 +37,28 @@ theorem take_of_le_one {α : Type} (l : List α) (h : l.length ≤ 1) (k : Nat) 
 theorem op_atomic_lemma (W : Nat) (fx : Fixes) (n : Node) (op : Op) (ft : Fault)
     (h : ∀ e, op ≠ .prune e) :
     (exec W fx n op ft).1.disk = (plan W fx n op).disk0 ∨
-    (exec W fx n op ft).1.disk = (exec W fx n op .none).1.disk := by
+    (exec W fx n op ft).1.disk = (exec W fx n op .none).1.disk ∨
+    (exec W fx n op ft).1.disk = n.disk := by
   have hl := commits_le_one W fx n op h
   cases ft with
-  | none => right; rfl
+  | none => right; left; rfl
+  | failInit =>
+    simp only [exec]
+    split
+    · right; right; rfl
+    · right; left; rfl
+  | crashInit => left; rfl
   | failAt k =>
     simp only [exec]
     split
     · rcases take_of_le_one _ hl k with h0 | h1
       · left; simp [h0, applyCommits]
-      · right; simp [h1]
-    · right; rfl
+      · right; left; simp [h1]
+    · right; left; rfl
   | crashAfter k =>
     simp only [exec]
     rcases take_of_le_one _ hl (k + 1) with h0 | h1
     · left; simp [h0, applyCommits]
-    · right; simp [h1]
+    · right; left; simp [h1]
 
 end Juno.C05
